@@ -7,6 +7,8 @@ import GoblVerif.Props.C05
 import GoblVerif.Props.C06
 import GoblVerif.Props.C07
 import GoblVerif.Props.C08
+import GoblVerif.Props.C09
+import GoblVerif.Props.C10
 import GoblVerif.Props.C12
 import GoblVerif.Props.C17
 import GoblVerif.Props.C18
